@@ -180,6 +180,19 @@ class VCls(V):
         return 'VCls(%s)' % self.qual
 
 
+class VGenAbs(V):
+    """generator expression over an iterable of unknown length; only any() / all() consume it (result: an
+    unconstrained boolean -- an over-approximation, so proofs stay sound and refutations are replayed)"""
+    __slots__ = ('node', 'why')
+
+    def __init__(self, node, why):
+        self.node = node
+        self.why = why
+
+    def __repr__(self):
+        return 'VGenAbs(line %s)' % getattr(self.node, 'lineno', '?')
+
+
 class VBI(V):
     """builtin / library function or type, identified by dotted name"""
     __slots__ = ('name',)
